@@ -276,7 +276,7 @@ fn find_vars(name: &str, proc_name: &str, program: &Program) -> Vec<Identifier> 
             ArrayAccess(a) => {
                 let mut idents = find_in_variable(&a.array, name);
                 if let Some(index) = &a.index {
-                    let new_idents = find_in_expression(index, name);
+                    let new_idents = find_in_expression(index, name).shift(index.offset);
                     idents.extend(new_idents);
                 }
                 idents
@@ -296,6 +296,8 @@ fn find_vars(name: &str, proc_name: &str, program: &Program) -> Vec<Identifier> 
                 idents.extend(new_idents);
                 idents
             }
+            Bracketed(b) => find_in_expression(&b.expr, name),
+            Unary(u) => find_in_expression(&u.expr, name),
             _ => Vec::new(),
         }
     }
